@@ -28,7 +28,7 @@ var specDecode = map[byte]rune{'a': '\a', 'b': '\b', 'f': '\f', 'n': '\n', 'r': 
 
 func ruleC15R1(w *World, r *Report) {
 	const rule = "C15/R1"
-	r.rule(rule, "every escape emitted by token/quote.go decodes (per the lexer's table) to the value it was emitted for; numeric formats have the digit count the lexer demands and guards that make the value fit; \\u/\\U are not emitted for bytes", 8)
+	r.rule(rule, "every escape emitted by token/quote.go decodes (per the lexer's table) to the value it was emitted for; numeric formats have the digit count the lexer demands and guards that make the value fit; \\u/\\U are not emitted for bytes", 4)
 	info := w.Tok.TypesInfo
 	fd := findFuncDecl(w.Tok, "", "quoteSingleEscape")
 	if fd == nil {
@@ -388,7 +388,7 @@ func (w *World) constantsReaching(v ssa.Value, seen map[ssa.Value]bool, depth in
 // ruleC15R2: raw writes of the loop variable only after quoteSingleEscape said "".
 func ruleC15R2(w *World, r *Report) {
 	const rule = "C15/R2"
-	r.rule(rule, "in QuoteSQLBytes and quoteSQLStringContent a raw write (WriteRune/WriteByte) of the loop element is dominated by the `q == \"\"` edge of a test on quoteSingleEscape(<that element>, quote, …); the opening and closing delimiter written by QuoteSQLString/Bytes/Ident are the same value that is passed as quote", 5)
+	r.rule(rule, "in QuoteSQLBytes and quoteSQLStringContent a raw write (WriteRune/WriteByte) of the loop element is dominated by the `q == \"\"` edge of a test on quoteSingleEscape(<that element>, quote, …); the opening and closing delimiter written by QuoteSQLString/Bytes/Ident are the same value that is passed as quote", 3)
 	qf := w.fn(w.Tok, "quoteSingleEscape")
 	if qf == nil {
 		r.errorf("token.quoteSingleEscape not found")
@@ -591,7 +591,7 @@ func ruleC15R3(w *World, r *Report) {
 // ruleC15R4: identifier predicate agreement.
 func ruleC15R4(w *World, r *Report) {
 	const rule = "C15/R4"
-	r.rule(rule, "needQuoteSQLIdent returns true when IsKeyword(s), !IsIdentStart(s[0]) or some !IsIdentPart(s[i]) — the classifiers and keyword table the lexer's identifier scan uses (resolved callees); QuoteSQLIdent returns s itself only on its false edge", 4)
+	r.rule(rule, "needQuoteSQLIdent returns true when IsKeyword(s), !IsIdentStart(s[0]) or some !IsIdentPart(s[i]) — the classifiers and keyword table the lexer's identifier scan uses (resolved callees); QuoteSQLIdent returns s itself only on its false edge", 2)
 	nq := w.fn(w.Tok, "needQuoteSQLIdent")
 	qi := w.fn(w.Tok, "QuoteSQLIdent")
 	if nq == nil || qi == nil {
